@@ -7,13 +7,13 @@ CONSTANTS
   Nodes = {"n1", "n2"}
   SlotNode <- Slot2
   Menu <- MenuMulti
-  MaxReq <- MR1x3
-  AnswerKinds <- AKerr
+  MaxReq <- MR1x2
+  AnswerKinds <- AKerrRedir
   MaxMsg = 4
   TimeoutOn = FALSE
   MaxBkClose = 0
   AllowCliClose = FALSE
-  MaxHops = 0
+  MaxHops = 1
   MaxBurst = 2
   CanonKinds = TRUE
   PoolAny = TRUE
